@@ -41,6 +41,9 @@ func init() {
 func runC12(p *Prog, r *Report, tier string) {
 	gs := collectorGuardSpec()
 	_, accs := checkGuardedBy(p, r, gs, "R-LOCK", "pkg/collector")
+	checkLockBearingReceivers(p, r, "R-LOCK.receiver", "pkg/collector")
+	// registry elements are shared by every connection goroutine without a lock: they are read-only (no data races)
+	checkInfoElementImmutable(p, r, "R-LOCK.info-element")
 	if len(accs) < 20 {
 		r.Undecided("R-LOCK.guarded", "anchor: guarded accesses of CollectingProcess", "pkg/collector", fmt.Sprintf("only %d guarded accesses found", len(accs)))
 	}
